@@ -520,5 +520,53 @@ pub fn check_reader_wakeups(rep: &mut CaseReport, events: &[Event], addr_of_side
                 Some(t0),
             );
         }
+        // End of stream is a condition change too: a read that is pending when the peer's FIN is
+        // accepted (handed over in sequence: at or after the last payload became in-order) returns
+        // in that step.
+        let mut fin_dgrams: std::collections::BTreeSet<u64> = Default::default();
+        let mut last_data: Us = 0;
+        let mut fin_ready: Option<Us> = None;
+        let mut pending_since: Option<Us> = None;
+        for e in events {
+            match &e.ev {
+                Ev::Send { id, dst, pkt: Some(p), .. } if *dst == addr_of_side[side as usize] && p.ty == crate::wire::ST_FIN => {
+                    fin_dgrams.insert(*id);
+                }
+                Ev::Hook(V::RxData { id, outcome, advanced, .. }) if id.local == addr_of_side[side as usize] && *outcome == "consumed" && *advanced >= 1 => {
+                    last_data = e.t;
+                    // a FIN seen before this payload was out of sequence and was dropped
+                    fin_ready = None;
+                }
+                Ev::Recv { id, dst } if *dst == addr_of_side[side as usize] && fin_dgrams.contains(id) => {
+                    if fin_ready.is_none() {
+                        fin_ready = Some(e.t);
+                    }
+                }
+                Ev::Api { side: s, op, .. } if *s == side => match op {
+                    ApiOp::ReadCall { .. } => pending_since = Some(e.t),
+                    ApiOp::ReadRet(r) => {
+                        if let (Ok(0), Some(tp), Some(tf)) = (r, pending_since, fin_ready) {
+                            // judged only when the read was already pending when the FIN came in,
+                            // and nothing out of order was outstanding (the FIN was in sequence)
+                            if tp <= tf && last_data <= tf {
+                                rep.counters.inc("c02_eof_wakeups_checked");
+                                if e.t > tf + MS {
+                                    rep.violate(
+                                        P,
+                                        "reader-woken-late",
+                                        format!("side{side} eof"),
+                                        format!("the peer's FIN was handed over at t={tf} us with a read pending since {tp} us; end of stream was reported at t={} us", e.t),
+                                        Some(tf),
+                                    );
+                                }
+                            }
+                        }
+                        pending_since = None;
+                    }
+                    _ => {}
+                },
+                _ => {}
+            }
+        }
     }
 }
